@@ -290,6 +290,12 @@ def tensor_method(it, tv, name, args, kwargs, node):
             if dst == 32:
                 it.narrowings.append((it.site(node), "a float64 tensor is converted to float32 (.%s)" % name, tv.obj))
             return r
+    if name == "to" and isinstance(kwargs, dict) and kwargs.get("copy") is not None and it.truth(kwargs.get("copy")) is True:
+        # .to(..., copy=True) always hands out a new tensor with its own storage
+        r = it.fresh(t, shape, kind, node)
+        r.obj.valkind = tv.obj.valkind
+        r.obj.dtype_src = tv.obj
+        return r
     if name in IDENTITY or (name == "float" and kind == "tensor") or name == "type":
         return tv  # torch returns self when no conversion is needed: may be the very same object
     if name == "clone" or name == "copy":
@@ -309,6 +315,12 @@ def tensor_method(it, tv, name, args, kwargs, node):
         r.obj.valkind = tv.obj.valkind
         r.obj.dtype_src = tv.obj
         return r
+    if name == "tobytes" and not args:
+        u = VUnknown("bytes", "bytes")
+        if t is not None:
+            u.fp = ("bytes", t)  # the raw content of the array: equal bytes are equal values
+        u.not_none = True
+        return u
     if name in ("item", "tolist"):
         if name == "item":
             v = VNum("float", t)
